@@ -627,11 +627,11 @@ PROPS = {
 # well (under its own rule and key, marked as a dependency).  Known findings stay with their home property.
 
 DEPS = {
-    'C01': ['C11', 'C16', 'C14', 'C10'],
-    'C02': ['C11', 'C16', 'C14', 'C10'],
-    'C03': ['C11', 'C16', 'C14', 'C10'],
-    'C04': ['C09', 'C11', 'C16', 'C14', 'C10'],
-    'C05': ['C09', 'C11', 'C16', 'C14', 'C10'],
+    'C01': ['C08', 'C11', 'C16', 'C14', 'C10'],
+    'C02': ['C08', 'C11', 'C16', 'C14', 'C10'],
+    'C03': ['C08', 'C11', 'C16', 'C14', 'C10'],
+    'C04': ['C08', 'C09', 'C11', 'C16', 'C14', 'C10'],
+    'C05': ['C08', 'C09', 'C11', 'C16', 'C14', 'C10'],
     'C06': ['C11', 'C16'],
     'C07': ['C11', 'C16', 'C09'],
     'C10': ['C12', 'C13'],
@@ -639,7 +639,7 @@ DEPS = {
     'C12': ['C11', 'C10'],
     'C16': ['C14', 'C10'],
     'C17': ['C06', 'C07', 'C09', 'C14', 'C10'],
-    'C18': ['C10', 'C11', 'C12', 'C13', 'C14', 'C16'],
+    'C18': ['C08', 'C10', 'C11', 'C12', 'C13', 'C14', 'C16'],
     'C19': ['C11', 'C16'],
 }
 
